@@ -1,2 +1,242 @@
-/- driver stub for C13: replaced when the model exists -/
-def main : IO Unit := pure ()
+/- driver for C13: B/IP layers (component lockstep) and whole IP worlds (end-to-end) -/
+import BacVerif.Drv.Common
+import BacVerif.Model.Bip
+open Lean BacVerif BacVerif.Drv BacVerif.Bip
+
+/-! ### JSON → model -/
+
+def arrOf (j : Json) : R (Array Json) := j.getArr?
+def natAt (a : Array Json) (i : Nat) : R Nat :=
+  match a[i]? with
+  | some v => v.getNat?
+  | none => throw "index"
+def strAt (a : Array Json) (i : Nat) : R String :=
+  match a[i]? with
+  | some v => v.getStr?
+  | none => throw "index"
+def hexAt (a : Array Json) (i : Nat) : R Data := do
+  match ofHex? (← strAt a i) with
+  | some b => pure b
+  | none => throw "bad hex"
+
+def addrOf (j : Json) : R Addr := do
+  let a ← arrOf j
+  pure ⟨← natAt a 0, ← natAt a 1⟩
+
+def destOf (j : Json) : R Dest := do
+  let a ← arrOf j
+  match ← strAt a 0 with
+  | "s" => pure (.station ⟨← natAt a 1, ← natAt a 2⟩)
+  | "b" => pure .bcast
+  | _ => pure .other
+
+def bdtOf (j : Json) : R (List BdtEntry) := do
+  let a ← arrOf j
+  a.toList.mapM fun e => do
+    let x ← arrOf e
+    pure ⟨⟨← natAt x 0, ← natAt x 1⟩, ← natAt x 2⟩
+
+def fdtOf (j : Json) : R (List FdtEntry) := do
+  let a ← arrOf j
+  a.toList.mapM fun e => do
+    let x ← arrOf e
+    pure ⟨⟨← natAt x 0, ← natAt x 1⟩, ← natAt x 2, ← natAt x 3⟩
+
+def bvllOf (j : Json) : R Bvll := do
+  let a ← arrOf j
+  match ← strAt a 0 with
+  | "result" => pure (.result (← natAt a 1))
+  | "wbdt" => pure (.writeBdt (← bdtOf (a[1]?.getD Json.null)))
+  | "rbdt" => pure .readBdt
+  | "rbdtack" => pure (.readBdtAck (← bdtOf (a[1]?.getD Json.null)))
+  | "fwd" => pure (.forwarded ⟨← natAt a 1, ← natAt a 2⟩ (← hexAt a 3))
+  | "reg" => pure (.registerFd (← natAt a 1))
+  | "rfdt" => pure .readFdt
+  | "rfdtack" => pure (.readFdtAck (← fdtOf (a[1]?.getD Json.null)))
+  | "del" => pure (.deleteFdt ⟨← natAt a 1, ← natAt a 2⟩)
+  | "dist" => pure (.distribute (← hexAt a 1))
+  | "ou" => pure (.origUnicast (← hexAt a 1))
+  | "ob" => pure (.origBroadcast (← hexAt a 1))
+  | "unk" => pure .unknown
+  | s => throw s!"unknown bvll {s}"
+
+/-! ### model → JSON -/
+
+def jAddr (a : Addr) : Json := Json.arr #[Json.num a.ip, Json.num a.port]
+def jDest : Dest → Json
+  | .station a => Json.arr #["s", Json.num a.ip, Json.num a.port]
+  | .bcast => Json.arr #["b"]
+  | .other => Json.arr #["o"]
+def jBdt (l : List BdtEntry) : Json :=
+  Json.arr (l.map fun e => Json.arr #[Json.num e.addr.ip, Json.num e.addr.port, Json.num e.mask]).toArray
+def jFdt (l : List FdtEntry) : Json :=
+  Json.arr (l.map fun e => Json.arr #[Json.num e.addr.ip, Json.num e.addr.port, Json.num e.ttl, Json.num e.remain]).toArray
+def jBvll : Bvll → Json
+  | .result c => Json.arr #["result", Json.num c]
+  | .writeBdt l => Json.arr #["wbdt", jBdt l]
+  | .readBdt => Json.arr #["rbdt"]
+  | .readBdtAck l => Json.arr #["rbdtack", jBdt l]
+  | .forwarded o d => Json.arr #["fwd", Json.num o.ip, Json.num o.port, jHex d]
+  | .registerFd t => Json.arr #["reg", Json.num t]
+  | .readFdt => Json.arr #["rfdt"]
+  | .readFdtAck l => Json.arr #["rfdtack", jFdt l]
+  | .deleteFdt a => Json.arr #["del", Json.num a.ip, Json.num a.port]
+  | .distribute d => Json.arr #["dist", jHex d]
+  | .origUnicast d => Json.arr #["ou", jHex d]
+  | .origBroadcast d => Json.arr #["ob", jHex d]
+  | .unknown => Json.arr #["unk"]
+def jOut : Out → Json
+  | .send d m => Json.arr #["send", jDest d, jBvll m]
+  | .up s d x => Json.arr #["up", jAddr s, jDest d, jHex x]
+  | .sap s m => Json.arr #["sap", jAddr s, jBvll m]
+  | .warn => Json.arr #["warn"]
+  | .raised w => Json.arr #["raised", Json.str w]
+def jOptNat : Option Nat → Json
+  | some n => Json.num n
+  | none => Json.null
+def jOptAddr : Option Addr → Json
+  | some a => jAddr a
+  | none => Json.null
+def jInt (i : Int) : Json := Json.num (JsonNumber.fromInt i)
+def jKind : Kind → Json
+  | .simple => Json.arr #["simple"]
+  | .foreign f => Json.arr #["foreign", jInt f.status, jOptAddr f.bbmd, jOptNat f.ttl,
+      jOptNat f.renewAt, jOptNat f.expireAt]
+  | .bbmd b => Json.arr #["bbmd", jAddr b.addr, jBdt b.bdt, jFdt b.fdt, Json.bool b.hasUpper]
+def jObs : Obs → Json
+  | .up n s d x => Json.arr #["up", jAddr n, jAddr s, jDest d, jHex x]
+  | .sap n s m => Json.arr #["sap", jAddr n, jAddr s, jBvll m]
+  | .err n w => Json.arr #["err", jAddr n, Json.str w]
+
+def brOfBvll : Bvll → String
+  | .result _ => "result" | .writeBdt _ => "wbdt" | .readBdt => "rbdt" | .readBdtAck _ => "rbdtack"
+  | .forwarded .. => "fwd" | .registerFd _ => "reg" | .readFdt => "rfdt" | .readFdtAck _ => "rfdtack"
+  | .deleteFdt _ => "del" | .distribute _ => "dist" | .origUnicast _ => "ou"
+  | .origBroadcast _ => "ob" | .unknown => "unk"
+def brOfOut : Out → String
+  | .send .bcast m => "sb:" ++ brOfBvll m
+  | .send (.station _) m => "ss:" ++ brOfBvll m
+  | .send .other m => "so:" ++ brOfBvll m
+  | .up .. => "up" | .sap .. => "sap" | .warn => "warn" | .raised w => "raised:" ++ w
+def brOfOuts (l : List Out) : String :=
+  -- shape class: the distinct kinds of outputs in order of first appearance
+  String.intercalate "," ((l.map brOfOut).eraseDups)
+
+/-! ### requests -/
+
+inductive St
+  | none
+  | comp (k : Kind)
+  | world (w : World)
+
+def kindOfJson (j : Json) : R Kind := do
+  match ← fldStr j "kind" with
+  | "simple" => pure .simple
+  | "foreign" => pure (.foreign {})
+  | "bbmd" =>
+      let a ← addrOf (← fld j "addr")
+      let up := match fldBool j "upper" with | .ok b => b | .error _ => true
+      let bdt ← match fldOpt j "bdt" with
+        | some v => bdtOf v
+        | none => pure []
+      pure (.bbmd { addr := a, bdt := bdt, fdt := [], hasUpper := up })
+  | s => throw s!"unknown kind {s}"
+
+def evOfJson (j : Json) : R Ev := do
+  match ← fldStr j "op" with
+  | "down" => pure (.down (← destOf (← fld j "dst")) (← fldHex j "data"))
+  | "up" => pure (.up (← fldNat j "now") (← addrOf (← fld j "src")) (← destOf (← fld j "dst"))
+                   (← bvllOf (← fld j "msg")))
+  | "tick" => pure .tick
+  | "addpeer" =>
+      let x ← fldArr j "e"
+      pure (.addPeer ⟨⟨← natAt x 0, ← natAt x 1⟩, ← natAt x 2⟩)
+  | "delpeer" => pure (.delPeer (← addrOf (← fld j "a")))
+  | "register" => pure (.register (← addrOf (← fld j "a")) (← fldInt j "ttl"))
+  | "unregister" => pure .unregister
+  | "renew" => pure (.renewFire (← fldNat j "now"))
+  | "expire" => pure .expireFire
+  | s => throw s!"unknown op {s}"
+
+def netOfJson (j : Json) : R Net := do
+  let id ← fldNat j "id"
+  let bc ← addrOf (← fld j "bcast")
+  let router ← match fldOpt j "router" with
+    | some v => do
+        let x ← arrOf v
+        pure (some (⟨⟨← natAt x 0, ← natAt x 1⟩, ← natAt x 2, ← natAt x 3⟩ : Port))
+    | none => pure none
+  let nodes ← (← fldArr j "nodes").toList.mapM fun nj => do
+    let a ← addrOf (← fld nj "addr")
+    let k ← kindOfJson nj
+    pure (⟨a, k⟩ : Node)
+  pure ⟨id, bc, router, nodes⟩
+
+def jWorldDigest (w : World) : Json :=
+  Json.arr (w.nets.flatMap fun n => n.nodes.map fun nd => Json.arr #[jAddr nd.addr, jKind nd.st]).toArray
+
+def reply (r : World × List Obs × Bool) (br : String) : St × Json :=
+  (.world r.1, Json.mkObj [("obs", Json.arr (r.2.1.map jObs).toArray), ("quiet", Json.bool r.2.2),
+                            ("digest", jWorldDigest r.1), ("br", br)])
+
+def brOfObs (l : List Obs) : String :=
+  let ups := l.countP fun o => match o with | .up .. => true | _ => false
+  let saps := l.countP fun o => match o with | .sap .. => true | _ => false
+  let errs := l.countP fun o => match o with | .err .. => true | _ => false
+  s!"u{min ups 9}s{saps}e{errs}"
+
+def handle (s : St) (j : Json) : R (St × Json) := do
+  let op ← fldStr j "op"
+  match op with
+  | "reset" =>
+      let k ← kindOfJson j
+      pure (.comp k, Json.mkObj [("out", Json.arr #[]), ("st", jKind k)])
+  | "world" =>
+      let nets ← (← fldArr j "nets").toList.mapM netOfJson
+      let w : World := { nets := nets, now := ← fldNat j "now", nextTick := ← fldNat j "tick" }
+      pure (.world w, Json.mkObj [("obs", Json.arr #[]), ("quiet", Json.bool true),
+                                   ("digest", jWorldDigest w)])
+  | _ =>
+    match s with
+    | .none => throw "no state"
+    | .comp k =>
+        let e ← evOfJson j
+        let r := bipStep k e
+        pure (.comp r.1, Json.mkObj [("out", Json.arr (r.2.map jOut).toArray), ("st", jKind r.1),
+                                      ("br", Json.str (brOfOuts r.2))])
+    | .world w =>
+        match op with
+        | "bcast" =>
+            let r := w.broadcast (← addrOf (← fld j "a")) (← fldHex j "data")
+            pure (reply r ("bcast:" ++ brOfObs r.2.1))
+        | "ucast" =>
+            let r := w.unicast (← addrOf (← fld j "a")) (← addrOf (← fld j "to")) (← fldHex j "data")
+            pure (reply r ("ucast:" ++ brOfObs r.2.1))
+        | "sap" =>
+            let r := w.sapSend (← addrOf (← fld j "a")) (← addrOf (← fld j "to")) (← bvllOf (← fld j "msg"))
+            pure (reply r ("sap:" ++ brOfObs r.2.1))
+        | "register" =>
+            let a ← addrOf (← fld j "a")
+            let b ← addrOf (← fld j "bbmd")
+            let t ← fldInt j "ttl"
+            let r1 := w.act a fun k => match k with
+              | .foreign f => let x := foreignRegister f b t; (.foreign x.1, x.2)
+              | k => (k, [.raised "n/a"])
+            -- the renewal task installed with when=0 runs at once
+            let r2 := World.advance 64 r1.1 r1.1.now
+            pure (reply (r2.1, r1.2.1 ++ r2.2.1, r1.2.2 && r2.2.2) "register")
+        | "unregister" =>
+            let a ← addrOf (← fld j "a")
+            let r := w.act a fun k => match k with
+              | .foreign f => let x := foreignUnregister f; (.foreign x.1, x.2)
+              | k => (k, [.raised "n/a"])
+            pure (reply r "unregister")
+        | "advance" =>
+            let r := World.advance 100000 w (← fldNat j "t")
+            pure (reply r ("advance:" ++ brOfObs r.2.1))
+        | "detach" =>
+            let w' := w.detach (← addrOf (← fld j "a"))
+            pure (reply (w', [], true) "detach")
+        | s => throw s!"unknown world op {s}"
+
+def main : IO Unit := loopS St.none handle
